@@ -442,6 +442,19 @@ def split_resp(resp):
     return t[1], t[2:]
 
 
+def classify(ctx, cases, tag):
+    """which exactness theorem (RRule.family, Spec/RRuleSupported.lean = the hypothesis of
+    iter_eq_spec_supported_partial) covers each sampled rule"""
+    for c, rsp in zip(cases, ctx.driver(["rrule.supported " + wire(c) for c in cases])):
+        fam = rsp.split()[1] if rsp.startswith("ok ") else "-"
+        ctx.count("rules_sampled")
+        ctx.count(tag + "_rules_sampled")
+        if fam != "-":
+            ctx.count("rules_under_exactness_theorem")
+            ctx.count(tag + "_rules_under_exactness_theorem")
+            ctx.count("theorem_family_" + fam)
+
+
 def correspondence(ctx):
     basecorr.run(ctx)
     cases = list(WITNESS_CASES) + gen_cases(ctx, "corr", ctx.budget(300, 5000), malformed_rate=0.15)
@@ -450,6 +463,7 @@ def correspondence(ctx):
     got_c = ctx.driver(reqs_c)
     got_i = ctx.driver(reqs_i)
     got_o = ctx.driver(["rrule.orig " + wire(c) for c in cases])
+    classify(ctx, cases, "corr")
     for c, gc, gi, go in zip(cases, got_c, got_i, got_o):
         st, items, r = run_impl(c, c["n"])
         ctx.traces += 1
@@ -605,6 +619,11 @@ def oracle(ctx):
         if len(unknown_violations(ctx)) >= 3:
             ctx.note("oracle stopped after %d generated rules: failing inputs found" % (i + 500))
             break
+    ctx.note("rules_under_exactness_theorem: %d of %d sampled rules (%.1f %%) satisfy `SupportedBy` for some family, i.e. lie under "
+             "iter_eq_spec_supported_partial; per family: %s"
+             % (ctx.hist.get("rules_under_exactness_theorem", 0), ctx.hist.get("rules_sampled", 0),
+                100.0 * ctx.hist.get("rules_under_exactness_theorem", 0) / max(1, ctx.hist.get("rules_sampled", 0)),
+                ", ".join("%s %d" % (k[len("theorem_family_"):], v) for k, v in sorted(ctx.hist.items()) if k.startswith("theorem_family_"))))
     ncap = ctx.hist.get("corr_status_cap", 0) + ctx.hist.get("oracle_status_cap", 0)
     nall = sum(v for k, v in ctx.hist.items() if k.startswith("corr_status_") or k.startswith("oracle_status_"))
     ctx.note("per-rule cap = %d executed source %s of dateutil/rrule.py (a function of the rule, not of the clock): "
@@ -662,6 +681,7 @@ def evaluate(ctx, cases):
 
 
 def _evaluate(ctx, cases, pending):
+    classify(ctx, cases, "oracle")
     runs = []
     for c in cases:
         st, items, r = run_impl(c, c["n"])
